@@ -619,7 +619,9 @@ impl Connection {
             _ => 0,
         };
         let token = match self.state {
-            State::Unconnected => unreachable!(),
+            // No token has been negotiated yet (`Net::reject` closes a
+            // connection before it was ever accepted).
+            State::Unconnected => None,
             // Signal support for the token protocol.
             State::Connecting => Some(TOKEN_NONE),
             State::Pending(ref pending) => pending.token,
